@@ -119,6 +119,7 @@ type c18Server struct {
 	code       bool   // carry `[CAPABILITY <caps>]`
 	plainLogin bool   // LOGIN answered without the capability code
 	extra      string // untagged lines sent in front of it
+	enabled    string // the `* ENABLED …` line answering the next ENABLE (default: UTF8=ACCEPT)
 }
 
 // advance drops what the last serve consumed
@@ -253,7 +254,12 @@ func (s *c18Server) serve(replyTag, stopTag, script string) (wire []byte, acts [
 			pre, fin := s.extra, cmdTag+" OK done\r\n"
 			switch {
 			case word == "ENABLE":
-				pre += "* ENABLED UTF8=ACCEPT\r\n"
+				if s.enabled != "" {
+					pre += s.enabled
+				} else {
+					pre += "* ENABLED UTF8=ACCEPT\r\n"
+				}
+				s.enabled = ""
 			case word == "CAPABILITY":
 				pre += "* CAPABILITY " + s.caps + "\r\n"
 			case word == "LOGIN" && !s.plainLogin, s.code:
@@ -517,7 +523,8 @@ func c18RunSeq(caps string, enabled bool, pre *c18Job, kind string, args []strin
 
 // c18RunSess: a session prefix (events that set or change what the server advertised / enabled),
 // then one probe command. Events, ';'-separated: `g:<caps>` greeting; `e` ENABLE UTF8=ACCEPT
-// exchange; `u:<caps>` UNAUTHENTICATE answered OK [CAPABILITY caps]; `U:<caps>` answered plain OK,
+// exchange; `E:<names>` a further ENABLE (METADATA) answered `* ENABLED <names>` ("-" = none);
+// `u:<caps>` UNAUTHENTICATE answered OK [CAPABILITY caps]; `U:<caps>` answered plain OK,
 // the client's own CAPABILITY command answered with caps; `c:<caps>` an untagged CAPABILITY (during a
 // NOOP); `l:<caps>` / `L:<caps>` LOGIN answered with / without the capability code (then the
 // client's CAPABILITY command); `h:<caps>` an APPEND holds the encoder (literal open), the probe is
@@ -579,6 +586,13 @@ func c18RunSess(events string, kind string, args []string, script string) caseLi
 		switch {
 		case ev == "e":
 			ok = exchange(func() { c.Enable(imap.CapUTF8Accept).Wait() }, 1)
+		case strings.HasPrefix(ev, "E:"):
+			// a further ENABLE (METADATA), answered with the given list of NEWLY enabled names
+			s.enabled = "* ENABLED\r\n"
+			if ev[2:] != "-" {
+				s.enabled = "* ENABLED " + capText(ev) + "\r\n"
+			}
+			ok = exchange(func() { c.Enable(imap.CapMetadata).Wait() }, 1)
 		case strings.HasPrefix(ev, "u:"):
 			s.caps, s.code = capText(ev), true
 			ok = exchange(func() { c.Unauthenticate().Wait() }, 1)
@@ -1078,6 +1092,16 @@ func genC18(e *emitter, tier string, seed uint64) {
 			addSess("g:"+base+";"+un+base, sessProbes[:1])
 		}
 		addSess("g:"+base+";e;c:"+base, sessProbes[:1]) // a capability list alone resets nothing
+	}
+	// `* ENABLED` lists the NEWLY enabled extensions: a second ENABLE adds to the set, whatever it lists
+	for _, b := range []string{"1", "m", "p"} {
+		base := sets[b] + u8 + ",METADATA"
+		for _, second := range []string{"E:METADATA", "E:-", "E:UTF8=ACCEPT,METADATA"} {
+			addSess("g:"+base+";e;"+second, []sessJob{sessProbes[0], sessProbes[1], sessProbes[5], sessProbes[3]})
+			addSess("g:"+base+";"+second+";e", []sessJob{sessProbes[0], sessProbes[5]})
+			addSess("g:"+base+";e;"+second+";u:"+base, []sessJob{sessProbes[0], sessProbes[5]})
+		}
+		addSess("g:"+base+";E:METADATA", []sessJob{sessProbes[0], sessProbes[5]})
 	}
 	// a later capability list replaces the earlier one: untagged CAPABILITY, LOGIN with and without
 	// the code, and a list that arrives while the probe waits for the encoder
